@@ -179,30 +179,40 @@ def ksAB : KSt := KSt.ofSt sAB
 /-- **C19_keyed_untame_fails.** What the untame writes of `C19_options_fails` lead to, derived in the model: after an
 `UpdateMode` of `b` with a reset mask naming `id` (the record under key `b` then carries the id ""), or with an
 `InterceptAfter` that renames the record (id "zz"), `ChangeActiveMode("b")` succeeds — the lookup goes by key — and
-makes a mode active whose id is not "b"; `DeleteMode("b")` then passes the guard (which compares ids), succeeds, and
-the collection no longer has the record the active mode was copied from: the active mode has been deleted (I2) and
-its id names no stored mode, neither as key nor as the id of a listed record (I3). -/
+makes a mode active whose id is not "b": the active mode's id names no stored mode as a key (`GetMode(active.id)` is
+NotFound; I3 by key), and the listed record is not found under the id it carries.  Since 00bc77e `DeleteMode("b")` is
+refused all the same (the guard also looks at the record stored under the key; `C19_icpt_I2_step` with the identity),
+so I2 no longer falls with I3; before 00bc77e (`kdeleteModeUnfixed`) the delete passed the guard, succeeded, and the
+collection no longer had the record the active mode was copied from. -/
 theorem C19_keyed_untame_fails :
     (let k1 := (kstep ksAB (.update mB none { reset := some ⟨[.id], false⟩ })).1
      let r2 := kstep k1 (.changeActive "b" 5)
      let r3 := kstep r2.1 (.delete "b" false {})
-     r2.2.isOk = true ∧ r2.1.active.id = "" ∧ r3.2 = .ok none ∧ r3.1.changed = true ∧
-     kfind r3.1 r3.1.active.id = none ∧ kfind r3.1 "b" = none ∧ r3.1.recs.map (·.2.id) = ["a"]) ∧
+     let r3u := kdeleteModeUnfixed r2.1 "b" false {}
+     r2.2.isOk = true ∧ r2.1.active.id = "" ∧ kfind r2.1 r2.1.active.id = none ∧
+     r3 = (r2.1, .err .failedPrecondition) ∧
+     r3u.2 = .ok none ∧ kfind r3u.1 "b" = none ∧ r3u.1.recs.map (·.2.id) = ["a"]) ∧
     (let k1 := (kstep ksAB (.update mB (some ⟨[.title], false⟩) { after := some fun _ n => { n with id := "zz" } })).1
      let r2 := kstep k1 (.changeActive "b" 5)
      let r3 := kstep r2.1 (.delete "b" false {})
-     r2.2.isOk = true ∧ r2.1.active.id = "zz" ∧ r3.2 = .ok none ∧ r3.1.changed = true ∧
-     kfind r3.1 r3.1.active.id = none ∧ kfind r3.1 "b" = none ∧ r3.1.recs.map (·.2.id) = ["a"]) := by decide
+     let r3u := kdeleteModeUnfixed r2.1 "b" false {}
+     r2.2.isOk = true ∧ r2.1.active.id = "zz" ∧ kfind r2.1 r2.1.active.id = none ∧
+     r3 = (r2.1, .err .failedPrecondition) ∧
+     r3u.2 = .ok none ∧ kfind r3u.1 "b" = none ∧ r3u.1.recs.map (·.2.id) = ["a"]) := by decide
 
 /-- **C19_keyed_config_fails.** `C19_keyed_inv`'s hypothesis on the configuration is needed: the constructor accepts
 an initial record under a key it does not carry (`WithModeOption(resource.WithInitialRecord("k", mode a))`); then
-`ChangeActiveMode("k")` makes a mode with id `a` active and `DeleteMode("k")` deletes it. -/
+`ChangeActiveMode("k")` makes a mode with id `a` active, an id that names no stored mode as a key.  Since 00bc77e
+`DeleteMode("k")` is refused (the record stored under `k` carries the active mode's id); before, it deleted the
+active mode. -/
 theorem C19_keyed_config_fails :
     (KSt.config? [("k", mA), ("b", mB)] Mode.blank).isSome = true ∧
     (let r2 := kstep (KSt.config [("k", mA), ("b", mB)] Mode.blank) (.changeActive "k" 5)
      let r3 := kstep r2.1 (.delete "k" false {})
-     r2.2.isOk = true ∧ r2.1.active.id = "a" ∧ r3.2 = .ok none ∧ r3.1.changed = true ∧
-     kfind r3.1 r3.1.active.id = none ∧ r3.1.recs.map (·.2.id) = ["b"]) := by decide
+     let r3u := kdeleteModeUnfixed r2.1 "k" false {}
+     r2.2.isOk = true ∧ r2.1.active.id = "a" ∧ kfind r2.1 r2.1.active.id = none ∧
+     r3 = (r2.1, .err .failedPrecondition) ∧
+     r3u.2 = .ok none ∧ r3u.1.recs.map (·.2.id) = ["b"]) := by decide
 
 /-! ## Non-vacuity -/
 
